@@ -44,7 +44,12 @@ func (u *Upsert) Encode(c *proto.PacketContext, wr io.Writer) error {
 		if err := util.WriteUUID(wr, entry.ProfileID); err != nil {
 			return err
 		}
-		for _, action := range u.ActionSet {
+		// The client reads the data of the set actions in the protocol's fixed action
+		// order (the order of the bit set), not in the order the actions were supplied.
+		for _, action := range UpsertActions {
+			if !ContainsAction(u.ActionSet, action) {
+				continue
+			}
 			if err := action.Encode(c, wr, entry); err != nil {
 				return err
 			}
